@@ -519,4 +519,351 @@ theorem search_eq (xs : List Int) (k : Int) (inc : Increasing xs) :
     search xs k = (lb xs k, foundAt xs k) := by
   simp only [search, bsearch_eq_lb xs k inc, foundAt_eq]
 
+/-! ## D. SetIndexedElem / DeleteIndexedElem refine insert / erase -/
+
+theorem length_insertAt {α : Type} (l : List α) (n : Nat) (a : α) (h : n ≤ l.length) :
+    (insertAt l n a).length = l.length + 1 := by
+  induction l generalizing n with
+  | nil => cases n <;> simp [insertAt]
+  | cons x xs ih =>
+    cases n with
+    | zero => simp [insertAt]
+    | succ n => simp [insertAt, ih n (by simpa using h)]
+
+theorem mem_insertAt {α : Type} {l : List α} {n : Nat} {a x : α} (h : x ∈ insertAt l n a) :
+    x = a ∨ x ∈ l := by
+  induction l generalizing n with
+  | nil => cases n <;> simp [insertAt] at h <;> exact Or.inl h
+  | cons y ys ih =>
+    cases n with
+    | zero => simpa [insertAt] using h
+    | succ n =>
+      simp only [insertAt, List.mem_cons] at h ⊢
+      rcases h with h | h
+      · exact Or.inr (Or.inl h)
+      · rcases ih h with h | h
+        · exact Or.inl h
+        · exact Or.inr (Or.inr h)
+
+theorem length_removeAt {α : Type} (l : List α) (n : Nat) (h : n < l.length) :
+    (removeAt l n).length + 1 = l.length := by
+  induction l generalizing n with
+  | nil => simp at h
+  | cons x xs ih =>
+    cases n with
+    | zero => simp [removeAt]
+    | succ n => simp [removeAt, ih n (by simpa using h)]
+
+theorem removeAt_sublist {α : Type} (l : List α) (n : Nat) : (removeAt l n).Sublist l := by
+  induction l generalizing n with
+  | nil => simp [removeAt]
+  | cons x xs ih =>
+    cases n with
+    | zero => exact List.sublist_cons_self ..
+    | succ n => exact List.Sublist.cons_cons _ (ih n)
+
+theorem foundAt_mem {xs : List Int} {k : Int} (h : foundAt xs k = true) : k ∈ xs := by
+  induction xs with
+  | nil => simp [foundAt] at h
+  | cons x xs ih =>
+    simp only [foundAt] at h
+    split at h
+    · exact List.mem_cons_of_mem _ (ih h)
+    · simp only [beq_iff_eq] at h; subst h; exact List.mem_cons_self ..
+
+theorem not_mem_of_foundAt_false {xs : List Int} {k : Int} (inc : Increasing xs)
+    (h : foundAt xs k = false) : k ∉ xs := by
+  induction xs with
+  | nil => simp
+  | cons x xs ih =>
+    unfold Increasing at inc ih
+    rw [List.pairwise_cons] at inc
+    simp only [foundAt] at h
+    split at h
+    · next hx =>
+      simp only [List.mem_cons, not_or]
+      exact ⟨by omega, ih inc.2 h⟩
+    · next hx =>
+      simp only [beq_eq_false_iff_ne, ne_eq] at h
+      simp only [List.mem_cons, not_or]
+      refine ⟨fun e => h e.symm, fun hk => ?_⟩
+      have := inc.1 k hk
+      omega
+
+theorem lb_lt_of_foundAt {xs : List Int} {k : Int} (h : foundAt xs k = true) : lb xs k < xs.length := by
+  rw [foundAt_eq] at h
+  simp only [Bool.and_eq_true, decide_eq_true_eq] at h
+  exact h.1
+
+theorem zip_set_found (ix : List Int) (list : List Str) (k : Int) (v : Str)
+    (hl : ix.length = list.length) (hf : foundAt ix k = true) :
+    ix.zip (list.set (lb ix k) v) = SMap.insert (ix.zip list) k v := by
+  induction ix generalizing list with
+  | nil => simp [foundAt] at hf
+  | cons x xs ih =>
+    cases list with
+    | nil => simp at hl
+    | cons y ys =>
+      simp only [List.length_cons, Nat.add_right_cancel_iff] at hl
+      simp only [foundAt] at hf
+      simp only [lb]
+      split
+      · next hx =>
+        rw [if_pos hx] at hf
+        simp only [List.set_cons_succ, List.zip_cons_cons, SMap.insert]
+        rw [if_neg (by omega), if_neg (by omega), ih ys hl hf]
+      · next hx =>
+        rw [if_neg hx] at hf
+        simp only [beq_iff_eq] at hf
+        subst hf
+        simp [SMap.insert]
+
+theorem zip_insert_notfound (ix : List Int) (list : List Str) (k : Int) (v : Str)
+    (hl : ix.length = list.length) (hf : foundAt ix k = false) :
+    (insertAt ix (lb ix k) k).zip (insertAt list (lb ix k) v) = SMap.insert (ix.zip list) k v := by
+  induction ix generalizing list with
+  | nil =>
+    cases list with
+    | nil => simp [lb, insertAt, SMap.insert]
+    | cons y ys => simp at hl
+  | cons x xs ih =>
+    cases list with
+    | nil => simp at hl
+    | cons y ys =>
+      simp only [List.length_cons, Nat.add_right_cancel_iff] at hl
+      simp only [foundAt] at hf
+      simp only [lb]
+      split
+      · next hx =>
+        rw [if_pos hx] at hf
+        simp only [insertAt, List.zip_cons_cons, SMap.insert]
+        rw [if_neg (by omega), if_neg (by omega), ih ys hl hf]
+      · next hx =>
+        rw [if_neg hx] at hf
+        simp only [beq_eq_false_iff_ne, ne_eq] at hf
+        simp only [insertAt, List.zip_cons_cons, SMap.insert]
+        rw [if_pos (by omega)]
+
+theorem zip_remove_found (ix : List Int) (list : List Str) (k : Int)
+    (hl : ix.length = list.length) (hf : foundAt ix k = true) :
+    (removeAt ix (lb ix k)).zip (removeAt list (lb ix k)) = SMap.erase (ix.zip list) k := by
+  induction ix generalizing list with
+  | nil => simp [foundAt] at hf
+  | cons x xs ih =>
+    cases list with
+    | nil => simp at hl
+    | cons y ys =>
+      simp only [List.length_cons, Nat.add_right_cancel_iff] at hl
+      simp only [foundAt] at hf
+      simp only [lb]
+      split
+      · next hx =>
+        rw [if_pos hx] at hf
+        simp only [removeAt, List.zip_cons_cons, SMap.erase]
+        rw [if_neg (by omega), ih ys hl hf]
+      · next hx =>
+        rw [if_neg hx] at hf
+        simp only [beq_iff_eq] at hf
+        subst hf
+        simp [removeAt, SMap.erase]
+
+theorem zip_sorted {list : List Str} {ix : List Int} (h : PreWF list ix) : SMap.Sorted (ix.zip list) := by
+  rw [sorted_iff_keys, keys_zip h.len]; exact h.inc
+
+theorem mem_zip_key {list : List Str} {ix : List Int} {p : Int × Str} (hp : p ∈ ix.zip list) : p.1 ∈ ix :=
+  (List.of_mem_zip hp).1
+
+theorem sparseSet_spec {list : List Str} {ix : List Int} (h : PreWF list ix) (k : Int) (v : Str)
+    (hk : 0 ≤ k) (hni : foundAt ix k = true → isIotaFrom 0 ix = false) :
+    ∃ a', sparseSet list ix k v = .ok a' ∧ a'.WF ∧ a'.abs = SMap.insert (ix.zip list) k v := by
+  simp only [sparseSet, search_eq ix k h.inc]
+  cases hf : foundAt ix k with
+  | true =>
+    have hlt := lb_lt_of_foundAt hf
+    simp only [if_true]
+    rw [if_pos (by rw [← h.len]; exact hlt)]
+    refine ⟨_, rfl, ⟨?_⟩, ?_⟩
+    · intro ix' e
+      cases e
+      exact ⟨by simp [h.len], h.inc, h.nonneg, hni hf⟩
+    · simp only [Arr.abs]
+      exact zip_set_found ix list k v h.len hf
+  | false =>
+    have hle := lb_le_length ix k
+    simp only [Bool.false_eq_true, if_false]
+    rw [if_pos (by rw [← h.len]; exact hle)]
+    have hz := zip_insert_notfound ix list k v h.len hf
+    have hlen : (insertAt ix (lb ix k) k).length = (insertAt list (lb ix k) v).length := by
+      rw [length_insertAt _ _ _ hle, length_insertAt _ _ _ (by rw [← h.len]; exact hle), h.len]
+    have pre : PreWF (insertAt list (lb ix k) v) (insertAt ix (lb ix k) k) := by
+      refine ⟨hlen, ?_, ?_⟩
+      · have := SMap.insert_sorted (zip_sorted h) k v
+        rw [← hz, sorted_iff_keys, keys_zip hlen] at this
+        exact this
+      · intro j hj
+        rcases mem_insertAt hj with e | e
+        · omega
+        · exact h.nonneg j e
+    obtain ⟨w, ab⟩ := canonical_spec pre
+    exact ⟨_, rfl, w, by rw [ab, hz]⟩
+
+theorem enumFrom_set (s : Int) (l : List Str) (n : Nat) (v : Str) (h : n < l.length) :
+    enumFrom s (l.set n v) = SMap.insert (enumFrom s l) (s + n) v := by
+  induction l generalizing s n with
+  | nil => simp at h
+  | cons y ys ih =>
+    cases n with
+    | zero =>
+      simp only [List.set_cons_zero, enumFrom, SMap.insert]
+      rw [if_neg (by omega), if_pos (by omega)]
+      simp
+    | succ n =>
+      simp only [List.set_cons_succ, enumFrom, SMap.insert]
+      rw [if_neg (by omega), if_neg (by omega), ih (s + 1) n (by simpa using h)]
+      congr 2
+      omega
+
+theorem enumFrom_append (s : Int) (l : List Str) (v : Str) :
+    enumFrom s (l ++ [v]) = SMap.insert (enumFrom s l) (s + l.length) v := by
+  induction l generalizing s with
+  | nil => simp [enumFrom, SMap.insert]
+  | cons y ys ih =>
+    simp only [List.cons_append, enumFrom, SMap.insert, List.length_cons]
+    rw [if_neg (by omega), if_neg (by omega), ih (s + 1)]
+    congr 2
+    omega
+
+theorem mem_enumFrom_key {s : Int} {l : List Str} {p : Int × Str} (hp : p ∈ enumFrom s l) :
+    s ≤ p.1 ∧ p.1 < s + l.length := by
+  have : p.1 ∈ SMap.keys (enumFrom s l) := List.mem_map_of_mem hp
+  rw [keys_enumFrom] at this
+  exact mem_iotaFrom.mp this
+
+theorem setElem_spec {a : Arr} (h : a.WF) (k : Int) (v : Str) (hk : 0 ≤ k) :
+    ∃ a', setElem a k v = .ok a' ∧ a'.WF ∧ a'.abs = a.abs.insert k v := by
+  unfold setElem
+  split
+  · next e =>
+    simp only [Arr.abs, e]
+    split
+    · next hlt =>
+      rw [if_neg (by omega)]
+      refine ⟨_, rfl, Arr.WF.dense _, ?_⟩
+      dsimp only
+      have := enumFrom_set 0 a.list k.toNat v (by omega)
+      rw [this]
+      congr 1
+      omega
+    · next hge =>
+      split
+      · next heq =>
+        refine ⟨_, rfl, Arr.WF.dense _, ?_⟩
+        dsimp only
+        rw [enumFrom_append, heq]
+        simp
+      · next hne =>
+        have nf : foundAt (iotaFrom 0 a.list.length) k = false := by
+          cases hf : foundAt (iotaFrom 0 a.list.length) k with
+          | false => rfl
+          | true =>
+            have := mem_iotaFrom.mp (foundAt_mem hf)
+            omega
+        have := sparseSet_spec (PreWF.iota a.list) k v hk (by rw [nf]; intro c; cases c)
+        rw [zip_iotaFrom] at this
+        exact this
+  · next ix e =>
+    have := sparseSet_spec (h.pre e) k v hk (fun _ => (h.shape ix e).2.2.2)
+    simp only [Arr.abs, e]
+    exact this
+
+theorem sparseDel_spec {list : List Str} {ix : List Int} (h : PreWF list ix) (k : Int)
+    (hni : foundAt ix k = false → isIotaFrom 0 ix = false) :
+    ∃ a', sparseDel list ix k = .ok a' ∧ a'.WF ∧ a'.abs = SMap.erase (ix.zip list) k := by
+  simp only [sparseDel, search_eq ix k h.inc]
+  cases hf : foundAt ix k with
+  | false =>
+    simp only [Bool.not_false, if_true]
+    refine ⟨_, rfl, ⟨?_⟩, ?_⟩
+    · intro ix' e
+      cases e
+      exact ⟨h.len, h.inc, h.nonneg, hni hf⟩
+    · simp only [Arr.abs]
+      rw [SMap.erase_of_not_mem]
+      intro p hp e
+      exact not_mem_of_foundAt_false h.inc hf (e ▸ mem_zip_key hp)
+  | true =>
+    have hlt := lb_lt_of_foundAt hf
+    simp only [Bool.not_true, Bool.false_eq_true, if_false]
+    rw [if_pos (by rw [← h.len]; omega)]
+    have hz := zip_remove_found ix list k h.len hf
+    have l1 := length_removeAt ix _ hlt
+    have l2 := length_removeAt list (lb ix k) (by rw [← h.len]; exact hlt)
+    have hlen : (removeAt ix (lb ix k)).length = (removeAt list (lb ix k)).length := by
+      have := h.len
+      omega
+    have pre : PreWF (removeAt list (lb ix k)) (removeAt ix (lb ix k)) := by
+      refine ⟨hlen, ?_, ?_⟩
+      · exact List.Pairwise.sublist (removeAt_sublist ..) h.inc
+      · intro j hj
+        exact h.nonneg j ((removeAt_sublist ..).subset hj)
+    obtain ⟨w, ab⟩ := canonical_spec pre
+    exact ⟨_, rfl, w, by rw [ab, hz]⟩
+
+theorem enumFrom_take_last (s : Int) (l : List Str) (n : Nat) (h : n + 1 = l.length) :
+    enumFrom s (l.take n) = SMap.erase (enumFrom s l) (s + n) := by
+  induction l generalizing s n with
+  | nil => simp at h
+  | cons y ys ih =>
+    cases n with
+    | zero =>
+      have : ys = [] := by
+        cases ys with
+        | nil => rfl
+        | cons _ _ => simp at h
+      subst this
+      simp [enumFrom, SMap.erase]
+    | succ n =>
+      simp only [List.take_succ_cons, enumFrom, SMap.erase]
+      rw [if_neg (by omega), ih (s + 1) n (by simpa using h)]
+      congr 2
+      omega
+
+theorem deleteElem_spec {a : Arr} (h : a.WF) (k : Int) :
+    ∃ a', deleteElem a k = .ok a' ∧ a'.WF ∧ a'.abs = a.abs.erase k := by
+  unfold deleteElem
+  split
+  · next e =>
+    simp only [Arr.abs, e]
+    split
+    · next hout =>
+      refine ⟨_, rfl, Arr.WF.dense _, ?_⟩
+      dsimp only
+      rw [SMap.erase_of_not_mem]
+      intro p hp
+      have := mem_enumFrom_key hp
+      omega
+    · next hin =>
+      split
+      · next hlast =>
+        refine ⟨_, rfl, Arr.WF.dense _, ?_⟩
+        dsimp only
+        have := enumFrom_take_last 0 a.list k.toNat (by omega)
+        rw [this]
+        congr 1
+        omega
+      · next hmid =>
+        have yf : foundAt (iotaFrom 0 a.list.length) k = true := by
+          cases hf : foundAt (iotaFrom 0 a.list.length) k with
+          | true => rfl
+          | false =>
+            have := not_mem_of_foundAt_false (increasing_iotaFrom ..) hf
+            exact absurd (mem_iotaFrom.mpr (by omega)) this
+        have := sparseDel_spec (PreWF.iota a.list) k (by rw [yf]; intro c; cases c)
+        rw [zip_iotaFrom] at this
+        exact this
+  · next ix e =>
+    have := sparseDel_spec (h.pre e) k (fun _ => (h.shape ix e).2.2.2)
+    simp only [Arr.abs, e]
+    exact this
+
 end ShVerif.C33
